@@ -429,3 +429,32 @@ Definition map_plan_eqb (a b : map_plan) : bool :=
     ((l =? l') && bbox_eqb ab ab' && (nx =? nx') && (ny =? ny'))%Z && ocoords_eqb ts ts'
   | _, _ => false
   end.
+
+(* ---- TileManager._load_tile_coords: created tiles are put back into the requested collection by coordinate ---- *)
+Section LoadAssign.
+Local Open Scope Z_scope.
+Variable A : Type.
+Definition lcoord := (Z * Z * Z)%type.
+Definition lcoord_eqb (a b : lcoord) : bool :=
+  let '(x, y, z) := a in let '(x', y', z') := b in (x =? x') && (y =? y') && (z =? z').
+Definition ocoord_is (c : lcoord) (o : option lcoord) : bool :=
+  match o with Some c' => lcoord_eqb c' c | None => false end.
+Definition lcell := (option lcoord * option A)%type.
+
+(* tiles[coord].source = v : TileCollection.tiles_dict maps a coordinate to the LAST cell that has it *)
+Fixpoint coll_store (cells : list lcell) (c : lcoord) (v : A) : list lcell * bool :=
+  match cells with
+  | [] => ([], false)
+  | (c', s) :: r =>
+      let (r', done) := coll_store r c v in
+      if done then ((c', s) :: r', true)
+      else if ocoord_is c c' then ((c', Some v) :: r', true)
+      else ((c', s) :: r', false)
+  end.
+
+(* for created_tile in created_tiles: if created_tile.coord in tiles: tiles[created_tile.coord].source = ... *)
+Definition load_assign (cells : list lcell) (created : list (lcoord * A)) : list lcell :=
+  fold_left (fun acc cv => fst (coll_store acc (fst cv) (snd cv))) created cells.
+End LoadAssign.
+Arguments coll_store {A}.
+Arguments load_assign {A}.
